@@ -256,7 +256,7 @@ fn random_case(rep: &mut Report, seed: u64, index: u64) {
     gen.unknown_classes = false;
     gen.unknown_props = false;
     gen.max_nodes = 14;
-    let mut spec = gen.tree(&mut r);
+    let mut spec = if index % 40 == 39 { gen.scale_tree(&mut r) } else { gen.tree(&mut r) };
     for n in spec.nodes.iter_mut() {
         let props = std::mem::take(&mut n.props);
         n.props = props
